@@ -281,7 +281,7 @@ func c16Judge(run *vk.Run, d *c16Disp, path string, k int, late *atomic.Int32, d
 			if got > 1 {
 				cls = "2+"
 			}
-			run.Violation(fmt.Sprintf("C16:dispose|%s|handler-runs=%s|path=%s", d.kind, cls, path),
+			run.Violation(fmt.Sprintf("C16:dispose|%s|handler-runs=%s", d.kind, cls),
 				map[string]any{"case": desc, "handler": i, "runs": got, "when": when})
 		}
 	}
